@@ -154,11 +154,13 @@ impl<'a> TryFrom<&'a Val> for Xml<&'a [u8]> {
 macro_rules! write_kvs {
     ($w:ident, $a:ident, $f:expr) => {{
         $a.iter().try_for_each(|(k, v)| {
+            // a value that contains `"` (as in `<a x='"'/>`) is written between single quotes
+            let quote = if v.contains(&b'"') { '\'' } else { '"' };
             write!($w, " ")?;
             $f(k)?;
-            write!($w, "=\"")?;
+            write!($w, "={quote}")?;
             $f(v)?;
-            write!($w, "\"")
+            write!($w, "{quote}")
         })
     }};
 }
